@@ -1046,6 +1046,51 @@ def interp_multi(ctx):
     ctx.count('interp-multi-evaluations', n)
 
 
+def masked_cache_probe(ctx):
+    """MultiDimGridPDF.get_pd_with_eventdata with cache_pd_values and TWO sources: any order of requests for all values
+    (evt_mask None) and for one source's values (evt_mask) must return what an unused PDF instance returns (fix eb1c9d6:
+    all values requested after only one source's values had been calculated came back with NaN).  Predicate only."""
+    from skyllh.core.config import Config
+    from skyllh.core.trialdata import TrialDataManager
+    from skyllh.core.storage import DataFieldRecordArray as DFRA
+    from skyllh.core.binning import BinningDefinition
+    from skyllh.core.signalpdf import SignalMultiDimGridPDF
+
+    class SHG:
+        n_sources = 2
+    cfg = Config()
+
+    def mk():
+        return SignalMultiDimGridPDF(pmm=None, axis_binnings=[BinningDefinition('x', np.linspace(0, 10, 11))],
+                                     pdf_grid_data=np.linspace(1.0, 2.0, 11) + 0.05 * np.sin(np.arange(11)),
+                                     cache_pd_values=True, cfg=cfg)
+    trials = {'A': [1.5, 2.5, 7.25], 'B': [3.5, 4.5, 0.5], 'C': [0.25, 9.5, 5.5, 6.125]}
+    seqs = [['m0', None], ['m1', 'm0', None], [None, 'm0', 'm1'], ['m0', 'm0', None, None], ['m1', None, 'new:B', None, 'm0'],
+            ['m0', 'new:B', None], ['m0', 'm1', 'new:C', 'm1', None], [None, 'new:B', 'm0', None]]
+    n = 0
+    for seq in seqs:
+        tdm = TrialDataManager()
+        tdm.initialize_trial(SHG(), None, DFRA(np.array([(x,) for x in trials['A']], dtype=[('x', np.float64)])))
+        used = mk()
+        for j, req in enumerate(seq):
+            if isinstance(req, str) and req.startswith('new:'):
+                xs = trials[req[4:]]
+                tdm.initialize_trial(SHG(), None, DFRA(np.array([(x,) for x in xs], dtype=[('x', np.float64)])))
+                continue
+            ed = np.array([np.take(tdm.get_data('x'), tdm.src_evt_idxs[1])])
+            mask = None if req is None else (tdm.src_evt_idxs[0] == int(req[1]))
+            got = used.get_pd_with_eventdata(tdm, None, ed, evt_mask=mask)
+            want = mk().get_pd_with_eventdata(tdm, None, ed, evt_mask=mask)
+            n += 1
+            if not close([float(v) for v in got], [float(v) for v in want]):
+                ctx.violation('MultiDimGridPDF.get_pd_with_eventdata', 'depends-on-history',
+                              f'request sequence {seq}, step {j}: used PDF gives {list(got)}, an unused one {list(want)}',
+                              case={'masked_cache': True, 'seq': seq, 'step': j}, impl=[float(v) for v in got],
+                              model=[float(v) for v in want],
+                              predicate='cached pd values for any mask == pd values of an unused PDF instance')
+    ctx.count('masked-cache-requests', n)
+
+
 # ----------------------------------------------------------------- histories
 ALPHABET = [('init', 'A'), ('init', 'B'), ('init', 'C'), ('eval', 'p'), ('eval', 'q'), ('eval', 'r'),
             ('eval', 'far'), ('src', 2), ('ns2', 5)]
@@ -1232,6 +1277,7 @@ def run(ctx):
                 model_exprs.append(history_coq(c, h))
                 checks.append((c, h, steps))
     interp_multi(ctx)
+    masked_cache_probe(ctx)
     ctx.count('fresh-object-references', nref)
     if ctx.model_ok:
         try:
@@ -1248,6 +1294,8 @@ def replay(ctx, rp):
     c = rp.get('case') or {}
     if c.get('interp_multi'):
         return interp_multi(ctx)
+    if c.get('masked_cache'):
+        return masked_cache_probe(ctx)
     if not c.get('history'):
         ctx.notes.append('replay file has no concrete input (broken obligation): re-running the full check')
         return run(ctx)
